@@ -183,6 +183,18 @@ def run(chk):
         chk.fail("an unreachable strict BH-fraction target raises ValueError", dict(f_BH=0.9), "no error")
     except ValueError:
         pass
+    # over-ejection: a dynamical retention fraction outside [0, 1] asks for more BH mass to be removed than exists (or for BHs to be
+    # added) - ValueError, whatever the bin layout, never a silently empty or unchanged BH population
+    for ret_ in (-0.001, -0.05, -1.0, 1.2, 1.0001):
+        for nb_ in ([2, 2, 6], [1, 1, 2], 9):
+            kwo = dict(BASE, nbins=nb_, BH_ret_dyn=ret_, tout=[float(rng.choice([3000.0, 100.0, 12000.0]))])
+            try:
+                with warnings.catch_warnings():
+                    warnings.simplefilter("ignore")
+                    mo = emf.EvolvedMF.from_powerlaw(**kwo)
+                chk.fail("ejecting more BH mass than exists raises ValueError", kwo, dict(M_BH=float(mo.Mr.BH[-1].sum()), converged=bool(mo.converged)))
+            except ValueError:
+                chk.count("over-ejection requests refused")
     # the reachable window with natal kicks: the largest reachable fraction is the one left AFTER the kicks
     # (computed here by hand from a plain model without kicks / ejection and kicks.natal_kicks on copies of its BH bins)
     for kk in ([dict(kick_method="maxwellian", vesc=20), dict(kick_method="maxwellian", vesc=90), dict(kick_method="sigmoid", vesc=60)]
